@@ -87,22 +87,67 @@ pub enum AnySink {
     Rec(Recording),
 }
 
+macro_rules! forward {
+    ($self:ident, $m:ident ( $($a:expr),* )) => {
+        match $self {
+            AnySink::Vec(o) => o.$m($($a),*),
+            AnySink::BytesMut(o) => o.$m($($a),*),
+            AnySink::Size(o) => o.$m($($a),*),
+            AnySink::Rec(o) => o.$m($($a),*),
+        }
+    };
+}
+
+/// every method of the trait is handed to the chosen sink's own implementation (including any
+/// default method the sink overrides), so the wrapper adds no behaviour of its own
 impl BinaryOutput for AnySink {
     fn write_u8(&mut self, value: u8) {
-        match self {
-            AnySink::Vec(o) => o.write_u8(value),
-            AnySink::BytesMut(o) => o.write_u8(value),
-            AnySink::Size(o) => o.write_u8(value),
-            AnySink::Rec(o) => o.write_u8(value),
-        }
+        forward!(self, write_u8(value))
     }
     fn write_bytes(&mut self, bytes: &[u8]) {
-        match self {
-            AnySink::Vec(o) => o.write_bytes(bytes),
-            AnySink::BytesMut(o) => o.write_bytes(bytes),
-            AnySink::Size(o) => o.write_bytes(bytes),
-            AnySink::Rec(o) => o.write_bytes(bytes),
-        }
+        forward!(self, write_bytes(bytes))
+    }
+    fn write_i8(&mut self, value: i8) {
+        forward!(self, write_i8(value))
+    }
+    fn write_u16(&mut self, value: u16) {
+        forward!(self, write_u16(value))
+    }
+    fn write_i16(&mut self, value: i16) {
+        forward!(self, write_i16(value))
+    }
+    fn write_u32(&mut self, value: u32) {
+        forward!(self, write_u32(value))
+    }
+    fn write_i32(&mut self, value: i32) {
+        forward!(self, write_i32(value))
+    }
+    fn write_u64(&mut self, value: u64) {
+        forward!(self, write_u64(value))
+    }
+    fn write_i64(&mut self, value: i64) {
+        forward!(self, write_i64(value))
+    }
+    fn write_u128(&mut self, value: u128) {
+        forward!(self, write_u128(value))
+    }
+    fn write_i128(&mut self, value: i128) {
+        forward!(self, write_i128(value))
+    }
+    fn write_f32(&mut self, value: f32) {
+        forward!(self, write_f32(value))
+    }
+    fn write_f64(&mut self, value: f64) {
+        forward!(self, write_f64(value))
+    }
+    fn write_var_u32(&mut self, value: u32) {
+        forward!(self, write_var_u32(value))
+    }
+    fn write_var_i32(&mut self, value: i32) {
+        forward!(self, write_var_i32(value))
+    }
+    fn write_compressed(&mut self, bytes: &[u8], opts: flate2::Compression) -> desert::Result<()> {
+        forward!(self, write_compressed(bytes, opts))
     }
 }
 
